@@ -180,16 +180,9 @@ def r4(ctx):
     for b in [b for b in sets if b in eb.calls()]:
         extra = [g for g in ctx.guards_at(eb, b.idx) if not (g.kind == "is" and g.name in ("Some", "Continue") and g.a is not None and mentions_call(g.a, r"::next$"))]
         ctx.check(not extra, "EventBuffer::reset:unconditional", "the Unselected store is conditional on nothing but the iteration", eb.where(b.idx), bad_detail="the store is gated by %s: records the condition skips keep their Selected/Written state after an aborted series" % fmt_guards(extra)[:3])
-        lp = innermost_loop(eb, b.idx)
-        if lp is not None:
-            _h, blocks_ = lp if isinstance(lp, tuple) else (None, lp)
-            exits = [(x, s_) for x in blocks_ for s_ in eb.succs(x) if s_ not in blocks_ and eb.blocks[s_].term.kind != "unreachable"]
-            gi_ = ctx.gi(eb)
-            okx = True
-            for x, s_ in exits:
-                gs_ = [g for g in gi_.all_guards() if g.edge == (x, s_)]
-                if not any(g.kind == "is" and g.name in ("None", "Break") and g.a is not None and mentions_call(g.a, r"::next$") for g in gs_):
-                    okx = False
+        okx = loop_exits_only_when_exhausted(ctx, eb, b.idx)
+        if okx is not None:
+            exits = [1]
             ctx.check(okx and bool(exits), "EventBuffer::reset:whole-buffer", "the un-select loop ends only when the iterator is exhausted", eb.where(b.idx), bad_detail="the un-select loop can be left before the iterator is exhausted: records behind that point keep their Selected/Written state after an aborted series (never offered again, then released by an unrelated confirm)")
     z = [b for b in call_sites(eb, r"Counters::zero$") if mentions_field(sym.call_expr(b.term), "written")]
     ret = return_blocks(eb)
